@@ -29,6 +29,7 @@ import (
 	"strconv"
 	"strings"
 	"sync"
+	"syscall"
 	"time"
 
 	martian "github.com/google/martian/v3"
@@ -209,8 +210,9 @@ func serverTLS() *tls.Config {
 }
 
 type ex struct {
-	ops     []string // executed so far (for confirmation re-runs)
-	confirm bool     // this exec is itself a confirmation run
+	refuseAddr string   // target address whose dial is refused (op unreach)
+	ops        []string // executed so far (for confirmation re-runs)
+	confirm    bool     // this exec is itself a confirmation run
 
 	proxies   []*martian.Proxy
 	listeners []net.Listener
@@ -289,13 +291,21 @@ func (e *ex) newProxy(lst, tgt string, down string) (string, bool) {
 	if down != "" {
 		p.SetDownstreamProxy(&url.URL{Host: down})
 	}
-	if tgt == "plain" {
+	refuse := e.refuseAddr
+	if tgt == "plain" || refuse != "" {
 		p.SetDial(func(n, a string) (net.Conn, error) {
+			if refuse != "" && a == refuse {
+				// synthesised refusal: a port freed a moment ago may be re-allocated by another process
+				return nil, &net.OpError{Op: "dial", Net: n, Err: syscall.ECONNREFUSED}
+			}
 			c, err := net.DialTimeout(n, a, 5*time.Second)
 			if err != nil {
 				return nil, err
 			}
-			return plainConn{c}, nil
+			if tgt == "plain" {
+				return plainConn{c}, nil
+			}
+			return c, nil
 		})
 	}
 	var sl net.Listener = l
@@ -537,6 +547,7 @@ func (e *ex) do(op string) core.Result {
 		accepted := make(chan net.Conn, 1)
 		if unreach {
 			tl.Close()
+			e.refuseAddr = taddr
 		} else {
 			go func() {
 				c, err := tl.Accept()
